@@ -20,7 +20,8 @@ depth up to `depth(first.from)`; nothing in the first branch (`merge_succeeds_re
 with `ResolvedPos.node(d)` and `NodeType.compatible_content` of the real code is compared with the model's value for
 every merged replace pair (driver op `mergeCompat`, exact).  Relational oracle, in every schema (transitive or not):
 guard true and the pair applies  =>  the real merged step applies and gives the pair's document; a refused merged step
-with the guard false is counted (`merged-fails:guard-false`) — each of them is explained by the guard.
+with the guard false is counted (`merged-fails:guard-false`) — each of them is explained by the guard; guard false and
+the real merged step applies is a mismatch (the guard is necessary too: `merge_succeeds_replace_iff`).
 Which pairs merge: the model's `merge` and the real one are compared exactly (merged or not, and the merged step).
 """
 from prosemirror.model import Fragment, Schema, Slice
@@ -342,7 +343,8 @@ def run(ctx):
                         # compatTransB and the pair applying imply the per-case guard (mergeCompat_of_trans)
                         ctx.violation("guard-order", "the schema guard holds, the pair applies, the per-case guard is false", replay)
                     if not rg[0] and dm is not None:
-                        ctx.count("mergeCompat:false:merged-applies")
+                        # the guard is necessary as well (mergeCompat_of_merged_applies): the model says this cannot happen
+                        ctx.mismatch("mergeCompat", replay, "guard false, so the merged step is refused", "the real merged step applies")
                 if dm is None and not rg[0]:
                     ctx.count("merged-fails:guard-false")      # explained by the per-case guard (merge_needs_guard)
                 elif dm is None:
